@@ -744,6 +744,22 @@ write_value_info (const gchar *namespace,
   xml_end_element (file, "member");
 }
 
+/* the shortest decimal text that reads back to the same value, locale independent */
+static void
+write_floating_value (Xml      *file,
+                      gdouble   value,
+                      gboolean  single)
+{
+  gchar buf[64];
+  gdouble back;
+
+  g_ascii_formatd (buf, (gint) sizeof (buf), single ? "%.6g" : "%.15g", value);
+  back = g_ascii_strtod (buf, NULL);
+  if (single ? (gfloat) back != (gfloat) value : back != value)
+    g_ascii_formatd (buf, (gint) sizeof (buf), single ? "%.9g" : "%.17g", value);
+  xml_printf (file, "%s", buf);
+}
+
 static void
 write_constant_value (const gchar *namespace,
 		      GITypeInfo *type,
@@ -780,10 +796,10 @@ write_constant_value (const gchar *namespace,
       xml_printf (file, "%" G_GUINT64_FORMAT, value->v_uint64);
       break;
     case GI_TYPE_TAG_FLOAT:
-      xml_printf (file, "%f", (double)value->v_float);
+      write_floating_value (file, (gdouble) value->v_float, TRUE);
       break;
     case GI_TYPE_TAG_DOUBLE:
-      xml_printf (file, "%f", value->v_double);
+      write_floating_value (file, value->v_double, FALSE);
       break;
     case GI_TYPE_TAG_UTF8:
     case GI_TYPE_TAG_FILENAME:
